@@ -326,8 +326,11 @@ fn count_fired(plan: &crate::run::Plan, res: &RunResult, fired: &mut BTreeMap<&'
         let oi = cursor[wi];
         cursor[wi] += 1;
         if started.insert(wi) && wi != 0 {
-            if !sc.worlds[wi].env.is_empty() {
+            if sc.worlds[wi].env.iter().any(|(k, _)| !k.starts_with("VERIF_SLIDE_")) {
                 bump("env_noise");
+            }
+            if sc.worlds[wi].env.iter().any(|(k, _)| k == "VERIF_SLIDE_MMAP") {
+                bump("address_slide");
             }
             if !sc.worlds[wi].name.ends_with("g0") {
                 bump("process_restart");
